@@ -158,6 +158,7 @@ def run_unit(unit, canaries=True, keep=None):
     res['assumptions'] = scan_assumptions(gen)
     res['rewrites'] = sorted(set(f'{r} at /repo/{rel}:{ln}' for r, rel, ln in gen.rewrites))
     res['dropped'] = gen.dropped
+    res['projected'] = [f'{rel}: struct {nm} projected, dropped fields {dr}' for rel, nm, dr in gen.projected]
     res['clauses'] = gen.clauses
     res['gen_functions'] = gen.functions
     # ---- stdout: json summary
